@@ -7,7 +7,7 @@ from lib import vlib
 
 BASE = dict(NFlows="2", NNodes="2", EmptyFlows="{}", MaxSteps="4", MaxResumes="2", MaxCalls="4",
             FaultKinds="{}", MaxFaults="0")
-FAULTS = '{"flow_gone", "parent_gone", "node_gone", "pnode_gone", "wait_gone"}'
+FAULTS = '{"flow_gone", "parent_gone", "node_gone", "pnode_gone", "wait_gone", "group_added"}'
 
 
 def gen_plan(ctx, prop):
@@ -22,6 +22,16 @@ def gen_plan(ctx, prop):
         plans.append(("3nodes", dict(BASE, NFlows="1", NNodes="3", MaxSteps=str(3 + s % 3), MaxCalls="5", MaxResumes="3"), n // 2))
         # every behaviour of two one-node flows (each node kind in a sub-flow, under every trigger and resume kind)
         plans.append(("all-2x1", dict(BASE, NNodes="1", MaxSteps="3", MaxCalls="3", TrigKinds='{"manual", "msg"}'), None))
+        # longer sprints through sub-flows: a parent that enters a second child after the first one completed, a terminal
+        # enter from down there (the run list then holds finished runs BETWEEN the active ones) - needs six steps
+        plans.append(("deep-subflows", dict(BASE, MaxSteps="6", MaxResumes="0", MaxCalls="1", TrigKinds='{"manual"}', ResumeKinds="{}",
+                                            NodeKinds='{"split", "enter"}', DfltChoices="{TRUE}"), n * 10))
+        plans.append(("deep-subflows-waits", dict(BASE, MaxSteps="7", MaxCalls="2", TrigKinds='{"manual"}', NodeKinds='{"act", "split", "enter", "wait"}'), n * 2))
+        if not q:
+            # ... and the complete behaviour set of split / enter nodes in 2 flows x 2 nodes within six steps (0.58 M behaviours;
+            # TLC 80 s, replay 40 s on 16 cores)
+            plans.append(("subflows-2x2-exhaustive", dict(BASE, MaxSteps="6", MaxResumes="0", MaxCalls="1", TrigKinds='{"manual"}', ResumeKinds="{}",
+                                                          NodeKinds='{"split", "enter"}', DfltChoices="{TRUE}"), None))
     elif prop == "C05":
         combos = [(1, 0), (2, 1), (3, 3), (4, 2), (1, 2), (2, 0), (5, 1), (3, 1)]
         k = 3 if q else len(combos)
